@@ -88,7 +88,10 @@ class Gen:
         self.rng = rng
         self.info = {}
         self.n = 0
-        self.xref_io = xref_io   # separate stream: class-path references to input/output symbols (C05-F1)
+        self.xref_io = xref_io   # class-path references to input/output symbols (C05-F1)
+        self.clashes = []        # (model, name of an earlier model that one of its variables has)
+        self.broken = []         # classes that fail to flatten
+        self.p_broken = 0.4
 
     def fresh(self, p):
         self.n += 1
@@ -181,11 +184,17 @@ class Gen:
     def register(self, full, kind):
         self.info[full] = dict(leaves=[], pins=[], kind=kind)
 
-    def package(self, name):
+    def package(self, name, earlier_models=()):
         r = self.rng
         p = new_cls(name, "package")
         self.register(name, "package")
         consts, types, conns, funcs, models = [], [], [], [], []
+        imported = []
+        if earlier_models and r.random() < 0.7:
+            # a qualified import of the package, used by its models under the short name
+            m0 = r.choice(list(earlier_models))
+            p["imports"].append("import %s;" % m0)
+            imported.append(m0)
         for _ in range(r.randint(1, 2)):
             k = self.fresh("k")
             mods = "(%s = %s)" % (r.choice(ATTRS), self.num()) if r.random() < 0.4 else ""
@@ -237,8 +246,33 @@ class Gen:
             allr = self.scalar_real(full) + [c.split(".")[-1] for c in consts]
             if sc and r.random() < 0.7:
                 m["eqs"].append("%s = %s;" % (r.choice(sc), self.expr(allr)))
+            for m0 in imported:
+                if r.random() < 0.7:
+                    self.class_comp(m, full, m0.split(".")[-1], m0, [])
             p["classes"].append(m)
             models.append(full)
+        if r.random() < 0.5:
+            # a record, a function with an argument of that record type, and a model calling it
+            rn, fr, mr = self.fresh("Rec"), self.fresh("fr"), self.fresh("LeafR")
+            rec = new_cls(rn, "record")
+            rec["comps"] = [dict(name="x", text="Real x;"), dict(name="v", text="Real v = 0;")]
+            p["classes"].append(rec)
+            self.register(name + "." + rn, "record")
+            self.info[name + "." + rn]["leaves"] = [(("x",), "Real", "", False), (("v",), "Real", "", False)]
+            f = new_cls(fr, "function")
+            f["comps"] = [dict(name="s", text="input %s.%s s;" % (name, rn)), dict(name="m", text="input Real m = 1;"),
+                          dict(name="e", text="output Real e;")]
+            f["algo"] = ["e := 0.5 * m * s.v * s.v;"]
+            p["classes"].append(f)
+            self.register(name + "." + fr, "function")
+            m = new_cls(mr, "model")
+            self.register(name + "." + mr, "model")
+            m["comps"] = [dict(name="s", text="%s.%s s;" % (name, rn)), dict(name="e", text="Real e;")]
+            m["eqs"] = ["der(s.x) = s.v;", "der(s.v) = -s.x;", "e = %s.%s(s, %s);" % (name, fr, self.num())]
+            self.info[name + "." + mr]["leaves"] = [(("s", "x"), "Real", "", False), (("s", "v"), "Real", "", False),
+                                                   (("e",), "Real", "", False)]
+            p["classes"].append(m)
+            models.append(name + "." + mr)
         return p, dict(consts=consts, types=types, conns=conns, funcs=funcs, models=models)
 
     def library(self, nmodels):
@@ -246,7 +280,7 @@ class Gen:
         lib = dict(classes=[])
         pk = dict(consts=[], types=[], conns=[], funcs=[], models=[])
         for j in range(r.choice([0, 1, 1, 2])):
-            p, d = self.package("Lib%d" % j)
+            p, d = self.package("Lib%d" % j, pk["models"])
             lib["classes"].append(p)
             for k in pk:
                 pk[k] += d[k]
@@ -345,8 +379,43 @@ class Gen:
                 if cand and lhs:
                     t, p = r.choice(cand)
                     c["eqs"].append("%s = %s.%s;" % (r.choice(lhs), t, p))
+            if tops and r.random() < 0.3:
+                # a variable that has the name of an earlier model
+                vn = r.choice(tops)
+                if not any(k["name"] == vn for k in c["comps"]) and vn not in [p_[0] for (p_, _, _, _) in self.leaves(name)]:
+                    c["comps"].append(dict(name=vn, text="Real %s(start = %s);" % (vn, self.num())))
+                    self.info[name]["leaves"].append(((vn,), "Real", "", False))
+                    self.clashes.append((name, vn))
             lib["classes"].append(c)
             tops.append(name)
+        if tops and r.random() < self.p_broken:
+            # classes that do not flatten, each for another reason and at another depth
+            menu = ["attr", "miss", "self", "typo", "typo", "conn", "sub"]
+            for kind in r.sample(menu, r.randint(1, 3)):
+                bn = self.fresh("Bk")
+                b = new_cls(bn, "model")
+                holders = [t for t in tops if any(len(p_) >= 2 for (p_, _, _, _) in self.leaves(t))] or tops
+                t = r.choice(holders)
+                deep = [p_ for (p_, _, _, _) in self.leaves(t) if len(p_) >= 2]
+                if kind == "attr":
+                    b["comps"].append(dict(name="x", text="Real x(nosuch = 1);"))
+                elif kind == "miss":
+                    b["comps"].append(dict(name="n", text="Nowhere%d n;" % self.n))
+                elif kind == "self":
+                    b["extends"].append("extends %s;" % bn)
+                    b["comps"].append(dict(name="x", text="Real x;"))
+                elif kind == "typo":
+                    pth = r.choice(deep)[:-1] if deep else ()
+                    b["comps"].append(dict(name="c", text="%s c(%s = 2);" % (t, ".".join(pth + ("opennig",)))))
+                elif kind == "conn":
+                    b["comps"] += [dict(name="a", text="Real a;"), dict(name="c", text="%s c;" % t)]
+                    b["eqs"].append("connect(a, c.nopin);")
+                else:
+                    pth = r.choice(deep)[:-1] if deep else ("w",)
+                    b["comps"].append(dict(name="c", text="%s c(%s[1].q = 2);" % (t, ".".join(pth))))
+                self.register(bn, "model")
+                lib["classes"].append(b)
+                self.broken.append(bn)
         if r.random() < 0.35 and pk["models"]:
             # redeclaration pattern: replaceable local model used by a component, redeclared in an extends
             base = new_cls(self.fresh("RB"), "model")
@@ -363,8 +432,9 @@ class Gen:
         return lib
 
 
-def gen_library(rng, nmodels=None, xref_io=False):
+def gen_library(rng, nmodels=None, xref_io=False, p_broken=0.4):
     g = Gen(rng, xref_io=xref_io)
+    g.p_broken = p_broken
     lib = g.library(nmodels if nmodels is not None else rng.randint(2, 6))
     return lib, g
 
